@@ -112,8 +112,18 @@ func (w *Worker) fallback(pc []*Term, more []*Term, syms []*Term, extra string, 
 	if d := os.Getenv("GOSYM_DUMP"); d != "" {
 		os.WriteFile(fmt.Sprintf("%s/q%d.smt2", d, time.Now().UnixNano()), []byte(script), 0644)
 	}
-	for _, kind := range []string{"z3", "cvc5-int", "cvc5", "z3-new"} {
-		rr, mm, _ := OneShot(kind, script, to, syms)
+	order := []string{"z3", "cvc5-int", "cvc5", "z3-new"}
+	if hasHardDiv(append(append([]*Term{}, pc...), more...)) {
+		// division/remainder by a non-power-of-two: the integer encoding decides
+		// in a fraction of the time bit-blasting needs
+		order = []string{"cvc5-int", "z3", "cvc5", "z3-new"}
+	}
+	for i, kind := range order {
+		kto := to
+		if kind == "cvc5-int" && i == 0 && kto > 8*time.Second {
+			kto = 8 * time.Second // a quick first attempt; bit-level operators defeat the integer encoding
+		}
+		rr, mm, _ := OneShot(kind, script, kto, syms)
 		w.run.mu.Lock()
 		w.run.Fallbacks++
 		w.run.mu.Unlock()
@@ -264,4 +274,36 @@ func (ex *Exec) smallModelHint() string {
 		}
 	}
 	return sb.String()
+}
+
+// hasHardDiv reports whether the terms contain a division or remainder whose
+// divisor is not a constant power of two.
+func hasHardDiv(ts []*Term) bool {
+	seen := map[int32]bool{}
+	var walk func(t *Term) bool
+	walk = func(t *Term) bool {
+		if t == nil || t.op == OConst || t.op == OSym || seen[t.id] {
+			return false
+		}
+		seen[t.id] = true
+		switch t.op {
+		case OSDiv, OUDiv, OSRem, OURem:
+			d := t.a[1]
+			if d.op != OConst || d.c&(d.c-1) != 0 {
+				return true
+			}
+		}
+		for _, x := range t.a {
+			if walk(x) {
+				return true
+			}
+		}
+		return false
+	}
+	for _, t := range ts {
+		if walk(t) {
+			return true
+		}
+	}
+	return false
 }
